@@ -219,7 +219,7 @@ def _octs(rng):
 
 
 def generate(rng, tier):
-    mult = 1 if tier == 'quick' else 4
+    mult = 3 if tier == 'quick' else 8
     cases = []
     strings = []
     for ver in (4, 6):
